@@ -47,17 +47,35 @@ inductive FileId where
   | fresh (run : Nat)
   deriving DecidableEq, Repr
 
+/-- an IEEE double as the upgrade sees it: a finite value (the exact rational it denotes; `-0.0` and
+`0.0` are the same for `set`, `any` and `==`), NaN, or an infinity -/
+inductive Flt where
+  | fin (r : Rat)
+  | nan
+  | inf (neg : Bool)
+  deriving DecidableEq, Repr
+
+/-- truth value of a double (`any(uncertainty)`): everything but zero, NaN included -/
+def Flt.truthy : Flt → Bool
+  | .fin r => r != 0
+  | _ => true
+
+/-- `len(set(xs))` of the doubles obtained by iterating a NumPy array: equal values collapse, every NaN
+stays (a NaN is unequal to every value, itself included, and each iteration makes a new scalar object) -/
+def distinctCount (xs : List Flt) : Nat :=
+  (xs.filter (· != Flt.nan)).eraseDups.length + xs.count Flt.nan
+
 inductive Val where
   | str (s : String)
   | int (i : Int)
-  | flt (r : Rat)
+  | flt (x : Flt)
   | bool (b : Bool)
   deriving DecidableEq, Repr
 
 /-- one row of the old compound property dataset -/
 structure OldRow where
   value : Val
-  uncertainty : Rat
+  uncertainty : Flt
   reference : String
   filename : String
   encoder : String
@@ -79,7 +97,7 @@ structure NewProp where
   values : List Val
   definition : Option String
   unit : Option String
-  uncertainty : Option Rat
+  uncertainty : Option Flt
   deriving DecidableEq, Repr
 
 inductive PObj where
@@ -209,11 +227,11 @@ def freshProp (run : Nat) (dtype : String) (values : List Val) : NewProp :=
 /-- the objects one property conversion creates, in order (:83-115) -/
 def converted (run : Nat) (p : Path) (o : OldProp) : List (Path × PObj) :=
   let us := o.rows.map (·.uncertainty)
-  let many := decide (us.eraseDups.length > 1)
+  let many := decide (distinctCount us > 1)
   let main : NewProp :=
     { freshProp run o.dtype (o.rows.map (·.value)) with
       definition := nonEmpty o.definition, unit := nonEmpty o.unit,
-      uncertainty := if many then none else if us.any (· != 0) then us.head? else none }
+      uncertainty := if many then none else if us.any Flt.truthy then us.head? else none }
   let strExtra (suf : String) (sel : OldRow → String) : List (Path × PObj) :=
     if o.rows.any (fun r => sel r != "") then
       [(extraPath p suf, .new (freshProp run "str" (o.rows.map fun r => .str (sel r))))]
@@ -334,12 +352,12 @@ def PObj.view : PObj → PropView
 
 /-- per-value uncertainties as retrievable after the upgrade: the `<name>.uncertainty` property if
 there is one, otherwise the `uncertainty` attribute (absent = 0) for every value -/
-def extraUnc (ps : List (Path × PObj)) (p : Path) : Option (List Rat) :=
+def extraUnc (ps : List (Path × PObj)) (p : Path) : Option (List Flt) :=
   match lookup ps p with
   | some (.new n) =>
     match lookup ps (extraPath p ".uncertainty") with
-    | some (.new u) => some (u.values.map fun v => match v with | .flt r => r | _ => 0)
-    | _ => some (n.values.map fun _ => n.uncertainty.getD 0)
+    | some (.new u) => some (u.values.map fun v => match v with | .flt x => x | _ => .fin 0)
+    | _ => some (n.values.map fun _ => n.uncertainty.getD (.fin 0))
   | _ => none
 
 /-- per-value text extras as retrievable after the upgrade: the `<name><suf>` property if there is
